@@ -179,9 +179,9 @@ def _sbw_post(st, interp, C, res):
 
 
 U_SBW_PLAIN = Unit("Neutron.scattering_by_wavelength[no table]", NSF + ".Neutron.scattering_by_wavelength",
-                   _sbw_inputs(False), _sbw_post, replay={"module": "c03", "task": "replay"})
+                   _sbw_inputs(False), _sbw_post, arrays=[1, "wavelength"], replay={"module": "c03", "task": "replay"})
 U_SBW_TABLE = Unit("Neutron.scattering_by_wavelength[energy table]", NSF + ".Neutron.scattering_by_wavelength",
-                   _sbw_inputs(True), _sbw_post, replay={"module": "c03", "task": "replay"})
+                   _sbw_inputs(True), _sbw_post, arrays=[1, "wavelength"], replay={"module": "c03", "task": "replay"})
 
 
 # ------------------------------------------------------------------------------ neutron_scattering
